@@ -312,7 +312,7 @@ def _error_guarded(fn, call):
 
 
 def both_digest(f):
-    return {"k1": k1_digest(f), "exits": exits_digest(f)}
+    return {"k1": k1_digest(f), "exits": exits_digest(f), "k8": k8_digest(f)}
 
 
 # --------------------------------------------------------------------------
@@ -534,6 +534,65 @@ def k6_digest(f):
     return {"sites": sites, "nderef": nderef}
 
 
+COPY_FUNCS = {"strncpy": (0, 2), "memcpy": (0, 2), "memmove": (0, 2), "strncat": (0, 2), "bcopy": (1, 2)}
+
+
+def _upper_bound(fn, n):
+    """constant upper bound of an integer expression, from its syntax alone; None if unknown"""
+    s_ = strip(n)
+    if s_ is None:
+        return None
+    cv = const_value(s_)
+    if cv is not None:
+        return cv
+    if s_["k"] == "ConditionalOperator":
+        c, a, b = strip(s_["c"][0]), strip(s_["c"][1]), strip(s_["c"][2])
+        # (v <= K) ? v : K   and   (v < K) ? v : K
+        if c is not None and c["k"] == "BinaryOperator" and c["op"] in ("<=", "<"):
+            k = const_value(c["c"][1])
+            if k is not None and render(strip(c["c"][0])) == render(a) and const_value(b) is not None:
+                return max(k if c["op"] == "<=" else k - 1, const_value(b))
+        ua, ub = _upper_bound(fn, a), _upper_bound(fn, b)
+        return max(ua, ub) if ua is not None and ub is not None else None
+    if s_["k"] == "DeclRefExpr" and s_.get("dk") == "var" and not s_.get("g"):
+        ubs = []
+        for y in walk(fn["body"]):
+            src = None
+            if y["k"] == "BinaryOperator" and y["op"] == "=" and strip(y["c"][0]) is not None and strip(y["c"][0]).get("did") == s_.get("did"):
+                src = y["c"][1]
+            for d in (y.get("decls", []) if y["k"] == "DeclStmt" else []):
+                if d.get("did") == s_.get("did") and d.get("init") is not None:
+                    src = d["init"]
+            if y["k"] in ("CompoundAssignOperator",) and strip(y["c"][0]) is not None and strip(y["c"][0]).get("did") == s_.get("did"):
+                return None
+            if y["k"] == "UnaryOperator" and y["op"] in ("++", "post++", "pre++") and strip(y["c"][0]) is not None and strip(y["c"][0]).get("did") == s_.get("did"):
+                return None
+            if src is not None:
+                ubs.append(_upper_bound(fn, src))
+        if ubs and all(u is not None for u in ubs):
+            return max(ubs)
+    return None
+
+
+def k8_digest(f):
+    out = []
+    for name, fn in f.funcs.items():
+        if "body" not in fn or not fn.get("file", "").endswith(f.unit.split("/")[-1]):
+            continue
+        for c in calls(fn["body"]):
+            cal = c.get("callee")
+            if cal not in COPY_FUNCS:
+                continue
+            di, li = COPY_FUNCS[cal]
+            dst = strip(c["c"][1 + di])
+            if dst is None or dst["k"] != "DeclRefExpr" or not dst.get("bound"):
+                continue
+            ub = _upper_bound(fn, c["c"][1 + li])
+            out.append({"unit": f.unit, "func": name, "line": c["l"], "callee": cal, "dst": dst["n"], "bound": dst["bound"],
+                        "len": render(c["c"][1 + li])[:50], "ub": ub})
+    return out
+
+
 def run(tier, only=None):
     rep = common.Report("C07", tier, EXPLANATION)
     units = common.compiler_units()
@@ -557,6 +616,21 @@ def run(tier, only=None):
             rep.violation("K1", key, where, "%s: %s (%s)" % (s["expr"], s["why"], s["origin"]))
 
     k5(rep)
+    # ---- K8 ---------------------------------------------------------------
+    n8 = 0
+    for u in sorted(dig):
+        for st in dig[u]["k8"]:
+            n8 += 1
+            key = "bounded-copy:%s:%s:%s" % (st["unit"], st["func"], st["dst"])
+            where = "%s:%d (%s)" % (st["unit"], st["line"], st["func"])
+            if st["ub"] is not None and st["ub"] < st["bound"]:
+                rep.ok("K8", key, sample={"site": where, "copy": "%s(%s, ..., %s)" % (st["callee"], st["dst"], st["len"]), "length<=": st["ub"], "array": st["bound"]})
+            else:
+                rep.violation("K8", key, where,
+                              "%s copies `%s` bytes into the %d-byte array %s and nothing in the function bounds that length by a constant "
+                              "below the array size (an assert is compiled out by default): a long input token overruns the stack buffer"
+                              % (st["callee"], st["len"], st["bound"], st["dst"]))
+    rep.floor("length-controlled copies into fixed arrays", n8, 1)
     # ---- K6 ---------------------------------------------------------------
     k6 = common.map_units(K6_UNITS, k6_digest, all_trees=True)
     nd = 0
